@@ -87,6 +87,13 @@ func (s *segmentTimelineGenerator) start(newWindowSize uint32, isShifted bool) {
 	s._nrTracks = uint32(len(s.segDataBuffers))
 }
 
+// setNrTracks updates the number of tracks that must have a segment for a number to be complete.
+func (s *segmentTimelineGenerator) setNrTracks(nrTracks uint32) {
+	if s._started && nrTracks > s._nrTracks {
+		s._nrTracks = nrTracks
+	}
+}
+
 // generateSegmentTimelineNrMPD generates the SegmentTimelineNr MPD for the channel and writes it to disk.
 // The times are taken from the longest ending consecutive range of sequence numbers of all segments.
 // Latest number is >= newLatestSeqNr depending on the highest number in the buffers.
